@@ -352,6 +352,10 @@ def twin_oracle(ctx, cases, iouts):
                 # the property speaks of read requests; the memory store over a directory acknowledges the repeated delete of a
                 # blob of the backing directory (202 where the directory store answers 404) - reads agree
                 continue
+            if c.get("twin_kind") == "memdir":
+                # (sessions are numbered by creation: requests other than reads may open a session in one store only)
+                a.pop("loc", None)
+                b.pop("loc", None)
             if a != b:
                 diff = {x: (a.get(x), b.get(x)) for x in set(a) | set(b) if a.get(x) != b.get(x)}
                 if c.get("twin_kind") == "memdir":
@@ -359,8 +363,12 @@ def twin_oracle(ctx, cases, iouts):
                     ctx.violation("memory store over the directory and re-opened directory store answer %s %s/%s differently: %s" % (st["kind"], st.get("repo"), st.get("arg", ""), str(diff)[:300]),
                                   dict(case=replayable(dict(d, steps=d["steps"][:k + 1])), memdir=str(a)[:800], dir=str(b)[:800]), "C10:memdir-dir-%s" % st["kind"])
                     break
+                sig = "C10:mem-dir-%s" % st["kind"]
+                if st["kind"] == "mget" and a.get("status") == 200 and b.get("status") == 404 and deleted_child_of_live_index(d, idr, k, st.get("repo"), st.get("arg")):
+                    # the directory store re-read index.json meanwhile (a collection does): finding F52, seen from the memory twin
+                    sig = "C10:reopen-mget-deleted-child-of-live-index"
                 ctx.violation("directory and memory store answer %s %s/%s differently: %s" % (st["kind"], st.get("repo"), st.get("arg", ""), str(diff)[:300]),
-                              dict(case=replayable(dict(d, steps=d["steps"][:k + 1])), dir=str(a)[:800], mem=str(b)[:800]), "C10:mem-dir-%s" % st["kind"])
+                              dict(case=replayable(dict(d, steps=d["steps"][:k + 1])), dir=str(a)[:800], mem=str(b)[:800]), sig)
                 break
     return n
 
